@@ -79,6 +79,20 @@ func checkContain(root string, c containCase) string {
 	case "a/b":
 		os.MkdirAll(filepath.Join(dir, "a"), 0o777)
 		os.WriteFile(filepath.Join(dir, "a", "b"), []byte("pre-existing\n"), 0o666)
+	default:
+		// "a=>TARGET": dir/a is a symbolic link. The targets: a directory outside
+		// the target directory (relative and absolute), a directory inside it, an
+		// existing file outside, and nothing (dangling, pointing outside).
+		if t, ok := strings.CutPrefix(c.Pre, "a=>"); ok {
+			os.MkdirAll(filepath.Join(parent, "outdir"), 0o777)
+			os.MkdirAll(filepath.Join(dir, "sub"), 0o777)
+			t = strings.ReplaceAll(t, "$PARENT", parent)
+			if err := os.Symlink(t, filepath.Join(dir, "a")); err != nil {
+				kit.Harness("symlink: %v", err)
+			}
+		} else if c.Pre != "" {
+			kit.Harness("unknown pre-existing kind %q", c.Pre)
+		}
 	}
 	before := takeSnap(root)
 	a := &txtar.Archive{}
@@ -149,8 +163,15 @@ func checkContain(root string, c containCase) string {
 	if err == nil {
 		for i, n := range c.Names {
 			p := filepath.Join(dirRel, filepath.Clean(filepath.FromSlash(n)))
-			if after[p] != "f:"+dataFor(i) {
-				return fmt.Sprintf("wrong-data: success reported but entry %q: file %q holds %q, want %q", n, p, after[p], dataFor(i))
+			got, ok := after[p]
+			if !ok {
+				// below a symbolic link to a directory: read through it
+				if data, rerr := os.ReadFile(filepath.Join(root, p)); rerr == nil {
+					got = "f:" + string(data)
+				}
+			}
+			if got != "f:"+dataFor(i) {
+				return fmt.Sprintf("wrong-data: success reported but entry %q: file %q holds %q, want %q", n, p, got, dataFor(i))
 			}
 		}
 	}
@@ -197,12 +218,18 @@ type rtCase struct {
 	Files []treeFile `json:"files"`
 	Flags []string   `json:"flags"`
 	Abs   bool       `json:"abs_dir_arg"`
+	// Arg: another spelling of the directory argument: "." and "./" (run from
+	// inside the tree), "d/", "./d", "../w/d"; empty: "d" (or absolute with Abs)
+	Arg string `json:"dir_arg,omitempty"`
 }
 
 func (c rtCase) String() string {
 	var fs []string
 	for _, f := range c.Files {
 		fs = append(fs, fmt.Sprintf("%s=%q", f.Path, f.Content))
+	}
+	if c.Arg != "" {
+		return fmt.Sprintf("{%s} flags=%v dir-argument=%q", strings.Join(fs, ", "), c.Flags, c.Arg)
 	}
 	return fmt.Sprintf("{%s} flags=%v abs=%v", strings.Join(fs, ", "), c.Flags, c.Abs)
 }
@@ -246,8 +273,14 @@ func checkRoundTrip(root string, c rtCase, st *rtStats) string {
 	if c.Abs {
 		arg = tree
 	}
+	if c.Arg != "" {
+		arg = c.Arg
+	}
 	cmd := exec.Command(filepath.Join(os.Getenv("VERIF_BIN"), "txtar-c"), append(append([]string{}, c.Flags...), arg)...)
 	cmd.Dir = work
+	if c.Arg == "." || c.Arg == "./" {
+		cmd.Dir = tree
+	}
 	var archive, errb bytes.Buffer
 	cmd.Stdout = &archive
 	cmd.Stderr = &errb
@@ -381,6 +414,16 @@ func main() {
 			cases = append(cases, containCase{Names: []string{n}, Pre: pre})
 		}
 	}
+	// pre-existing symbolic links named a
+	for _, pre := range []string{"a=>../outdir", "a=>$PARENT/outdir", "a=>sub", "a=>../sibling.txt", "a=>../nothing", "a=>..", "a=>."} {
+		for _, n := range []string{"a", "a/b", "a/b/c", "b", "b/../a/c", "./a/./b", "a/", "a/../b", "a/../../x", "sub/../a/d"} {
+			cases = append(cases, containCase{Names: []string{n}, Pre: pre})
+			cases = append(cases, containCase{Names: []string{"b", n}, Pre: pre})
+			if n != "a/../../x" {
+				cases = append(cases, containCase{Names: []string{n}, Pre: pre, ViaX: true})
+			}
+		}
+	}
 	second := []string{"a", "b/a", "../x", "a/../../y", "/abs", "a/b"}
 	for _, n := range names {
 		for _, s := range second {
@@ -440,7 +483,7 @@ func main() {
 	r.Sample(map[string]any{"entry_names": []string{"a/../../b", "/a/./.."}, "pre_existing": "a"})
 
 	// ----- round trip -----
-	paths := []string{"a", "d/b", "d/e/c", ".dot", "d/.h", "-- x --", "dd/a", "xd/d/f"}
+	paths := []string{"a", "d/b", "d/e/c", ".dot", "d/.h", "-- x --", "dd/a", "xd/d/f", ".cfg/s", "..u/v"}
 	conts := []string{"", "x\n", "x", "-- m --\n", "x\n-- m --\n", ">q\n", "-- m --", "\xff\xfe\n", "x\r\n-- m --\r\n"}
 	var files []treeFile
 	for _, p := range paths {
@@ -479,7 +522,22 @@ func main() {
 	for ti, t := range trees {
 		for fi, fl := range flagSets {
 			// the directory argument is relative for most cases, absolute for a systematic quarter
-			rts = append(rts, rtCase{Files: t, Flags: fl, Abs: (ti+fi)%4 == 0})
+			c := rtCase{Files: t, Flags: fl}
+			switch (ti + fi) % 8 {
+			case 0, 4:
+				c.Abs = true
+			case 1:
+				c.Arg = "."
+			case 2:
+				c.Arg = "d/"
+			case 3:
+				c.Arg = "./d"
+			case 5:
+				c.Arg = "./"
+			case 6:
+				c.Arg = "../w/d"
+			}
+			rts = append(rts, c)
 		}
 	}
 	st := &rtStats{}
@@ -499,7 +557,7 @@ func main() {
 	sort.Strings(pn)
 	r.Set("evaluations", done+rtDone)
 	r.Set("distinct_nontrivial", outside+atomic.LoadInt64(&st.quoted)+atomic.LoadInt64(&st.archived))
-	r.Set("rule", "containment: every entry name of <= 4 segments over {a,b,.,..,empty} with and without leading / trailing slash, plus specials, alone (x 3 pre-populated directories) and paired with 6 second entries in both orders, in-process and through the txtar-x binary; round trip: every tree of <= 2 (thorough 3) files over 8 paths x 9 contents x 4 flag sets through the built txtar-c and txtar-x. non-trivial = containment cases with an escaping name + files actually archived and compared + files restored through Unquote (counted)")
+	r.Set("rule", "containment: every entry name of <= 4 segments over {a,b,.,..,empty} with and without leading / trailing slash, plus specials, alone (x 3 pre-populated directories), 10 names x 7 pre-existing symbolic links called a (to directories outside and inside, to a file outside, dangling, to '..' and '.') and paired with 6 second entries in both orders, in-process and through the txtar-x binary; round trip: every tree of <= 2 (thorough 3) files over 10 paths x 9 contents x 4 flag sets through the built txtar-c and txtar-x, the directory argument spelled d, absolute, '.', './', 'd/', './d' or '../w/d' in rotation. non-trivial = containment cases with an escaping name + files actually archived and compared + files restored through Unquote (counted)")
 	r.Set("containment_cases", done)
 	r.Set("containment_cases_with_escaping_name", outside)
 	r.Set("containment_cases_via_txtar_x", viaX)
